@@ -588,6 +588,17 @@ def block_diagonalize(
                     "The values of fully_diagonalize dictionary must be symmetric: the "
                     "adjoint of entry (i, j) must be entry (j, i)."
                 )
+            if any(
+                not any(powers)
+                for to_eliminate in fully_diagonalize.values()
+                for i in range(to_eliminate.shape[0])
+                for powers in getattr(to_eliminate[i, i], "terms", ())
+            ):
+                # A number-conserving term of a diagonal entry couples a level to itself.
+                raise ValueError(
+                    "Full diagonalization must not eliminate matrix elements corresponding"
+                    " to equal eigenvalues."
+                )
 
             def diag(x, index):
                 x = x[index] if isinstance(x, BlockSeries) else x
